@@ -192,3 +192,24 @@ func HarnessSelfTestClock(a []int) {
 	verifAssert("self.clock.timer", done && time.Since(t0) == 50*time.Millisecond)
 	verifCover("self.clock.end")
 }
+
+func init() {
+	verifHarnesses["HarnessSelfTestPool"] = HarnessSelfTestPool
+}
+
+var selfPool = sync.Pool{New: func() interface{} { b := make([]byte, 4); return &b }}
+
+// HarnessSelfTestPool: the sync.Pool model: New on an empty pool, the last item put back is handed
+// out again.
+func HarnessSelfTestPool(a []int) {
+	p1 := selfPool.Get().(*[]byte)
+	p2 := selfPool.Get().(*[]byte)
+	verifAssert("self.pool.new", p1 != p2 && len(*p1) == 4)
+	(*p1)[0] = 7
+	selfPool.Put(p1)
+	p3 := selfPool.Get().(*[]byte)
+	verifAssert("self.pool.reuse", p3 == p1 && (*p3)[0] == 7)
+	var empty sync.Pool
+	verifAssert("self.pool.nil_without_new", empty.Get() == nil)
+	verifCover("self.pool.end")
+}
